@@ -882,6 +882,30 @@ func cmdCheck(args []string) int {
 		wg.Wait()
 	}
 
+	// World C: the injected handler stall sleeps while it holds something that
+	// goroutines of the code under test wait for (a lock shared with a background
+	// goroutine): the bubble cannot advance. Repeat the batch without that fault.
+	noStall := false
+	if pi.World == "C" && !isolated {
+		for _, r := range results {
+			if r.stats == nil && strings.Contains(readTail(r.logPath, 1<<30), "the injected handler stall") {
+				noStall = true
+			}
+		}
+	}
+	if noStall {
+		fmt.Println("note: the injected handler stall wedged the simulation on this tree (a stalled handler holds a lock that background goroutines of the code under test wait for); repeating the batch without the stall fault")
+		for i, j := range jobs {
+			wg.Add(1)
+			go func(i int, j wjob) {
+				defer wg.Done()
+				results[i] = runWorker(j.sc, prop, tier, j.variant, j.idx, h64("seed", seed, prop, j.idx)|1, tc.Budget, tc.Shrink, []string{"VERIF_NOSTALL=1"})
+				results[i].sc = j.sc
+			}(i, j)
+		}
+		wg.Wait()
+	}
+
 	// aggregate
 	agg := workerStats{Counters: map[string]uint64{}}
 	union := map[uint64]struct{}{}
